@@ -312,7 +312,7 @@ func main() {
 	})
 	registerPaths(r)
 	r.Register("sites", func(a []string) string { return strings.Join(censusSites(r), ",") })
-	r.Register("reach", func(a []string) string { return strings.Join(reachCensus(r), ",") })
+	r.Register("reach", func(a []string) string { an, _ := reachCensus(r); return strings.Join(an, ",") })
 	if r.Replayed() {
 		return
 	}
